@@ -1,6 +1,316 @@
-//! C03 — not implemented yet.
-use crate::ctx::Ctx;
+//! C03 — plan optimisation never changes what a pipeline computes.
+//!
+//! (a) `PLAN <chain>`: the REAL private passes (hook `planner::verif::{fuse, reorder, lift, drop_mid}`)
+//!     run one by one on SYNTHETIC chains — custom `DynOp`s with arbitrary capability flags / costs,
+//!     mid-chain and terminal `Materialized`, GBK followed by lifted and non-lifted combines — and the
+//!     resulting shapes are compared op by op (pointer identity) with the model's passes.
+//! (b) `PLANX <chain>`: well-typed synthetic chains are EXECUTED by the real engines (hook
+//!     `runner::verif::{exec_seq, exec_par}`) literally and after optimisation. Oracle: same result.
+//! (c) `EXPLAIN`: `Plan::explain()` of `build_plan` lists exactly the nodes of the optimised chain.
+//! (d) programs through the public builders: planned run == plain-vector reference (pipe::reference).
+
+use crate::ctx::{Ctx, guarded};
+use crate::pipe;
+use ironbeam::combiners::Sum;
+use ironbeam::node::{DynOp, Node};
+use ironbeam::planner::verif as pv;
+use ironbeam::runner::verif as rv;
+use ironbeam::type_token::{Partition, TypeTag, vec_ops_for};
+use ironbeam::{Pipeline, from_vec};
+use std::sync::Arc;
+
+type Row = (i64, i64);
+type GRow = (i64, Vec<i64>);
+
+#[derive(Clone, Debug)]
+struct OpDesc { code: char, arg: i64, kp: bool, vo: bool, rs: bool, cost: u8 }
+
+struct CustomOp(OpDesc);
+impl DynOp for CustomOp {
+    fn apply(&self, input: Partition) -> Partition {
+        let d = &self.0;
+        match d.code {
+            'G' => { let v = *input.downcast::<Vec<GRow>>().expect("G: groups"); Box::new(v.into_iter().map(|(k, vs)| (k, vs.iter().sum::<i64>())).collect::<Vec<Row>>()) }
+            'H' => match input.downcast::<Vec<GRow>>() {
+                Ok(v) => Box::new(v.into_iter().filter(|r| r.0.rem_euclid(2) == 0).collect::<Vec<GRow>>()),
+                Err(other) => { let v = *other.downcast::<Vec<Row>>().expect("H: rows"); Box::new(v.into_iter().filter(|r| r.0.rem_euclid(2) == 0).collect::<Vec<Row>>()) }
+            },
+            c => {
+                let v = *input.downcast::<Vec<Row>>().expect("custom op: rows");
+                let out: Vec<Row> = match c {
+                    'A' => v.into_iter().map(|(k, x)| (k, x + d.arg)).collect(),
+                    'M' => v.into_iter().map(|(k, x)| (k, x * d.arg)).collect(),
+                    'F' => v.into_iter().filter(|(_, x)| x.rem_euclid(d.arg.max(1)) != 0).collect(),
+                    'K' => v.into_iter().map(|(k, x)| (k + d.arg, x)).collect(),
+                    'D' => v.into_iter().flat_map(|r| vec![r, r]).collect(),
+                    _ => panic!("unknown op"),
+                };
+                Box::new(out)
+            }
+        }
+    }
+    fn key_preserving(&self) -> bool { self.0.kp }
+    fn value_only(&self) -> bool { self.0.vo }
+    fn reorder_safe_with_value_only(&self) -> bool { self.0.rs }
+    fn cost_hint(&self) -> u8 { self.0.cost }
+}
+
+#[derive(Clone, Debug)]
+enum ND { Src(Vec<Row>), St(Vec<OpDesc>), Gbk, Cvl, Cv, Mat(Vec<Row>) }
+
+fn b01(b: bool) -> char { if b { '1' } else { '0' } }
+fn rows_enc(r: &[Row]) -> String { if r.is_empty() { "-".into() } else { r.iter().map(|(k, v)| format!("{k}:{v}")).collect::<Vec<_>>().join(",") } }
+fn op_enc(o: &OpDesc) -> String { format!("{}{}/{}{}{}/{}", o.code, o.arg, b01(o.kp), b01(o.vo), b01(o.rs), o.cost) }
+fn chain_enc(c: &[ND]) -> String {
+    c.iter().map(|n| match n {
+        ND::Src(r) => format!("SRC {}", rows_enc(r)),
+        ND::St(ops) => format!("ST {}", ops.iter().map(op_enc).collect::<Vec<_>>().join(";")),
+        ND::Gbk => "GBK".into(), ND::Cvl => "CVL".into(), ND::Cv => "CV".into(),
+        ND::Mat(r) => format!("MAT {}", rows_enc(r)),
+    }).collect::<Vec<_>>().join(" | ")
+}
+
+struct Built { chain: Vec<Node>, ops: Vec<(*const (), String)> }
+
+fn node_of<T: ironbeam::RFBound>(p: &Pipeline, pc: &ironbeam::PCollection<T>) -> Node {
+    let (nodes, _) = p.snapshot();
+    nodes.get(&pc.node_id()).cloned().expect("node")
+}
+
+fn build_chain(desc: &[ND]) -> Built {
+    let p = Pipeline::default();
+    let gbk = node_of(&p, &from_vec(&p, vec![(0i64, 0i64)]).group_by_key());
+    let cvl = node_of(&p, &from_vec(&p, vec![(0i64, vec![0i64])]).combine_values_lifted(Sum::<i64>::new()));
+    let cv = node_of(&p, &from_vec(&p, vec![(0i64, 0i64)]).combine_values(Sum::<i64>::new()));
+    let mut chain = vec![];
+    let mut ops = vec![];
+    for n in desc {
+        chain.push(match n {
+            ND::Src(rows) => Node::Source { payload: Arc::new(rows.clone()), vec_ops: vec_ops_for::<Row>(), elem_tag: TypeTag::of::<Row>() },
+            ND::St(ds) => Node::Stateless(ds.iter().map(|d| {
+                let a: Arc<dyn DynOp> = Arc::new(CustomOp(d.clone()));
+                ops.push((Arc::as_ptr(&a) as *const (), format!("{}{}", d.code, d.arg)));
+                a
+            }).collect()),
+            ND::Gbk => gbk.clone(), ND::Cvl => cvl.clone(), ND::Cv => cv.clone(),
+            ND::Mat(rows) => Node::Materialized(Arc::new(rows.clone())),
+        });
+    }
+    Built { chain, ops }
+}
+
+fn shape(chain: &[Node], ops: &[(*const (), String)]) -> String {
+    chain.iter().map(|n| match n {
+        Node::Source { .. } => "SRC".to_string(),
+        Node::Stateless(os) => format!("ST[{}]", os.iter().map(|o| {
+            let ptr = Arc::as_ptr(o) as *const ();
+            ops.iter().find(|(q, _)| *q == ptr).map_or("?".to_string(), |(_, l)| l.clone())
+        }).collect::<Vec<_>>().join(";")),
+        Node::GroupByKey { .. } => "GBK".into(),
+        Node::CombineValues { local_groups, .. } => if local_groups.is_some() { "CVL".into() } else { "CV".into() },
+        Node::CoGroup { .. } => "COGROUP".into(),
+        Node::CombineGlobal { .. } => "CG".into(),
+        Node::Materialized(_) => "MAT".into(),
+    }).collect::<Vec<_>>().join(",")
+}
+
+fn real_optimise(chain: Vec<Node>) -> Vec<Node> { pv::drop_mid(pv::lift(pv::reorder(pv::fuse(chain)))) }
+
+fn plan_case(cx: &mut Ctx, desc: &[ND]) {
+    let b = build_chain(desc);
+    let f = pv::fuse(b.chain.clone());
+    let r = pv::reorder(f.clone());
+    let l = pv::lift(r.clone());
+    let d = pv::drop_mid(l.clone());
+    let ans = format!("fuse={} reorder={} lift={} drop={}", shape(&f, &b.ops), shape(&r, &b.ops), shape(&l, &b.ops), shape(&d, &b.ops));
+    let idx = cx.case(format!("PLAN {}", chain_enc(desc)), ans, desc.len() >= 3);
+    cx.count("plan:structural");
+    // structural legality, independent of the model: the multiset of op labels is unchanged by every pass,
+    // barriers keep their relative order, the terminal node survives
+    let labels = |c: &[Node]| { let mut v: Vec<String> = vec![]; for n in c { if let Node::Stateless(os) = n { for o in os { let ptr = Arc::as_ptr(o) as *const (); v.push(b.ops.iter().find(|(q, _)| *q == ptr).map_or("?".into(), |(_, l)| l.clone())); } } } v };
+    let before = labels(&b.chain);
+    let after = labels(&d);
+    let (mut s1, mut s2) = (before.clone(), after.clone());
+    s1.sort(); s2.sort();
+    if s1 != s2 { cx.oracle_fail(idx, "optimise-drops-or-duplicates-an-op", format!("before={before:?} after={after:?}")); }
+    // ops may only move inside an all-movable fused block
+    if before != after {
+        let movable_everywhere = desc.iter().all(|n| match n { ND::St(ops) => ops.iter().all(|o| o.kp && o.vo && o.rs), _ => true });
+        if !movable_everywhere {
+            // find a fused block containing a non-movable op whose order changed
+            let fused_blocks: Vec<Vec<(String, bool)>> = fused_desc_blocks(desc);
+            let opt_blocks: Vec<Vec<String>> = d.iter().filter_map(|n| if let Node::Stateless(os) = n { Some(os.iter().map(|o| { let ptr = Arc::as_ptr(o) as *const (); b.ops.iter().find(|(q, _)| *q == ptr).map_or("?".into(), |(_, l)| l.clone()) }).collect()) } else { None }).collect();
+            for (fb, ob) in fused_blocks.iter().zip(opt_blocks.iter()) {
+                let names: Vec<String> = fb.iter().map(|x| x.0.clone()).collect();
+                if &names != ob && fb.iter().any(|x| !x.1) {
+                    cx.oracle_fail(idx, "reorders-a-block-containing-a-non-movable-op", format!("block={names:?} became {ob:?}"));
+                }
+            }
+        }
+    }
+    if let Some(last) = desc.last() {
+        let last_kind = match last { ND::Src(_) => "SRC", ND::St(_) => "ST", ND::Gbk => "GBK", ND::Cvl => "CVL", ND::Cv => "CV", ND::Mat(_) => "MAT" };
+        let got = shape(&d, &b.ops);
+        let got_last = got.rsplit(',').next().unwrap_or("").to_string();
+        let lifted_tail = desc.len() >= 2 && matches!(desc[desc.len() - 2], ND::Gbk) && matches!(last, ND::Cvl);
+        if !(got_last.starts_with(last_kind) || (lifted_tail && got_last == "CV")) {
+            cx.oracle_fail(idx, "optimise-changes-the-terminal-node", format!("terminal {last_kind} became {got_last}"));
+        }
+    }
+}
+
+fn fused_desc_blocks(desc: &[ND]) -> Vec<Vec<(String, bool)>> {
+    let mut out: Vec<Vec<(String, bool)>> = vec![];
+    let mut cur: Option<Vec<(String, bool)>> = None;
+    for n in desc {
+        match n {
+            ND::St(ops) => { let c = cur.get_or_insert_with(Vec::new); for o in ops { c.push((format!("{}{}", o.code, o.arg), o.kp && o.vo && o.rs)); } }
+            ND::Mat(_) => { if let Some(c) = cur.take() { out.push(c); } }
+            _ => { if let Some(c) = cur.take() { out.push(c); } }
+        }
+    }
+    if let Some(c) = cur.take() { out.push(c); }
+    out
+}
+
+fn exec_answer(r: Result<anyhow::Result<Vec<Row>>, String>) -> String {
+    match r {
+        Err(_) => "PANIC".into(),
+        Ok(Err(e)) => format!("ERR:{}", format!("{e}").replace(' ', "_")),
+        Ok(Ok(mut rows)) => { rows.sort(); rows_enc(&rows) }
+    }
+}
+
+fn planx_case(cx: &mut Ctx, desc: &[ND]) {
+    let parts = 1 + cx.rng.below(4);
+    let run = |optimise: bool, par: Option<usize>, skip_reorder: bool| -> String {
+        let b = build_chain(desc);
+        ironbeam::verif_hooks::set_skip_reorder(skip_reorder);
+        let chain = if optimise { real_optimise(b.chain) } else { b.chain };
+        ironbeam::verif_hooks::set_skip_reorder(false);
+        exec_answer(guarded(move || match par { None => rv::exec_seq::<Row>(chain), Some(n) => rv::exec_par::<Row>(&chain, n) }))
+    };
+    let lit = run(false, None, false);
+    let opt = run(true, None, false);
+    let optp = run(true, Some(parts), false);
+    let ans = format!("lit={lit} opt={opt} par={optp}");
+    let idx = cx.case(format!("PLANX parts={parts} {}", chain_enc(desc)), ans, desc.len() >= 3);
+    cx.count("plan:executed");
+    if lit != opt || lit != optp {
+        let nore = run(true, None, true);
+        let sig = if nore == lit && lit == run(true, Some(parts), true) { "planned-differs-from-literal-only-through-reorder-pass" } else { "optimised-chain-computes-something-else" };
+        cx.oracle_fail(idx, sig, format!("literal={lit} optimised={opt} optimised-par{parts}={optp} without-reorder-pass={nore}"));
+    }
+}
+
+fn gen_op(cx: &mut Ctx, group_typed: bool, honest: bool) -> OpDesc {
+    if group_typed {
+        return OpDesc { code: 'H', arg: 0, kp: cx.rng.chance(1, 2), vo: false, rs: cx.rng.chance(1, 2), cost: *cx.rng.pick(&[1, 5, 10]) };
+    }
+    let code = *cx.rng.pick(&['A', 'A', 'M', 'F', 'F', 'K', 'D', 'H']);
+    let arg = match code { 'A' => cx.rng.range(-2, 3), 'M' => cx.rng.range(2, 3), 'F' => cx.rng.range(2, 3), 'K' => cx.rng.range(1, 2), _ => 0 };
+    let value_only = matches!(code, 'A' | 'M' | 'F');
+    let (kp, vo, rs) = if honest { (code != 'K', value_only, value_only) } else { (cx.rng.chance(3, 4), cx.rng.chance(3, 4), cx.rng.chance(3, 4)) };
+    let cost = *cx.rng.pick(&[0u8, 1, 1, 2, 3, 3, 10, 255]);
+    OpDesc { code, arg, kp, vo, rs, cost }
+}
+
+fn gen_rows(cx: &mut Ctx) -> Vec<Row> { (0..cx.rng.below(9)).map(|_| (cx.rng.range(0, 3), cx.rng.range(-4, 9))).collect() }
+
+/// structural chains: anything goes (ill-typed chains are never executed)
+fn gen_struct_chain(cx: &mut Ctx) -> Vec<ND> {
+    let mut c = vec![ND::Src(gen_rows(cx))];
+    for _ in 0..cx.rng.below(9) {
+        c.push(match cx.rng.below(10) {
+            0..=4 => ND::St((0..1 + cx.rng.below(4)).map(|_| gen_op(cx, false, false)).collect()),
+            5 | 6 => ND::Gbk,
+            7 => ND::Cvl,
+            8 => ND::Cv,
+            _ => ND::Mat(gen_rows(cx)),
+        });
+    }
+    c
+}
+
+/// well-typed chains over rows `(i64, i64)`: GBK is followed by a lifted combine (possibly after a
+/// group-typed block — which must block the lift) or by the group-summing op; a mid-chain
+/// `Materialized` holds exactly the rows flowing at that point is NOT generated (its payload would
+/// replace the buffer), only payload-carrying terminal ones after a source-only prefix are.
+fn gen_exec_chain(cx: &mut Ctx, honest: bool) -> Vec<ND> {
+    let mut c = vec![ND::Src(gen_rows(cx))];
+    for _ in 0..cx.rng.below(5) {
+        match cx.rng.below(8) {
+            0..=4 => c.push(ND::St((0..1 + cx.rng.below(4)).map(|_| gen_op(cx, false, honest)).collect())),
+            5 => { c.push(ND::Gbk); c.push(ND::Cvl); }
+            6 => { c.push(ND::Gbk); c.push(ND::St(vec![gen_op(cx, true, honest)])); c.push(ND::Cvl); }
+            _ => c.push(ND::Cv),
+        }
+    }
+    if cx.rng.chance(1, 6) {
+        c.push(ND::Gbk);
+        c.push(ND::St(vec![OpDesc { code: 'G', arg: 0, kp: true, vo: false, rs: false, cost: 10 }]));
+    }
+    c
+}
+
+fn explain_case(cx: &mut Ctx, prog: &pipe::Prog) {
+    use pipe::Coll;
+    let p = Pipeline::default();
+    let c = pipe::build(&p, prog);
+    let id = match &c { Coll::T(x) => x.node_id(), Coll::KV(x) => x.node_id(), Coll::KG(x) => x.node_id() };
+    let plan = match ironbeam::planner::build_plan(&p, id) { Ok(pl) => pl, Err(_) => return };
+    let ex = plan.explain();
+    let kinds: Vec<String> = plan.chain.iter().map(|n| match n {
+        Node::Source { .. } => "Source".to_string(), Node::Stateless(os) => format!("Stateless{}", os.len()),
+        Node::GroupByKey { .. } => "GroupByKey".into(),
+        Node::CombineValues { local_groups, .. } => if local_groups.is_some() { "CombineValues+lifted".into() } else { "CombineValues".into() },
+        Node::CoGroup { .. } => "CoGroup".into(), Node::CombineGlobal { .. } => "CombineGlobal".into(), Node::Materialized(_) => "Materialized".into(),
+    }).collect();
+    let idx = cx.case(format!("EXPLAIN {}", prog.request("seq").splitn(2, ' ').nth(1).unwrap_or("")), kinds.join(","), prog.steps.len() >= 2);
+    cx.count("plan:explain");
+    // explain() must list exactly the nodes of the chain that runs, in order, with matching op counts
+    let lit = pv::backwalk(&p, id).map(real_optimise).unwrap_or_default();
+    let ex_types: Vec<String> = ex.steps.iter().map(|s| s.node_type.clone()).collect();
+    let chain_types: Vec<String> = lit.iter().map(|n| match n {
+        Node::Source { .. } => "Source", Node::Stateless(_) => "Stateless", Node::GroupByKey { .. } => "GroupByKey",
+        Node::CombineValues { .. } => "CombineValues", Node::CoGroup { .. } => "CoGroup", Node::CombineGlobal { .. } => "CombineGlobal", Node::Materialized(_) => "Materialized",
+    }.to_string()).collect();
+    let stateless_ops: usize = lit.iter().map(|n| if let Node::Stateless(os) = n { os.len() } else { 0 }).sum();
+    if ex_types != chain_types || ex.cost_estimate.stateless_ops != stateless_ops || ex.steps.iter().enumerate().any(|(i, s)| s.step != i + 1) {
+        cx.oracle_fail(idx, "explain-is-not-the-plan-that-runs", format!("explain={ex_types:?} chain={chain_types:?}"));
+    }
+}
 
 pub fn run(cx: &mut Ctx) {
-    cx.notes.push("C03: harness not implemented".to_string());
+    // corpus: the shapes the property names
+    let op = |code, arg, kp, vo, rs, cost| OpDesc { code, arg, kp, vo, rs, cost };
+    let src = vec![(0, 1), (0, 2), (1, 3)];
+    let corpus: Vec<Vec<ND>> = vec![
+        vec![ND::Src(src.clone()), ND::St(vec![op('A', 1, true, true, true, 3)]), ND::St(vec![op('F', 2, true, true, true, 1)])],
+        vec![ND::Src(src.clone()), ND::Gbk, ND::Cvl],
+        vec![ND::Src(src.clone()), ND::Gbk, ND::Cv],
+        vec![ND::Src(src.clone()), ND::Gbk, ND::St(vec![op('H', 0, true, false, false, 10)]), ND::Cvl],
+        vec![ND::Src(src.clone()), ND::Mat(src.clone()), ND::St(vec![op('A', 1, true, true, true, 3)]), ND::Mat(src.clone())],
+        vec![ND::Src(src.clone()), ND::St(vec![op('A', 1, true, true, true, 3), op('K', 1, false, false, false, 1), op('F', 2, true, true, true, 1)])],
+        vec![ND::Src(src.clone()), ND::St(vec![op('A', 1, true, true, true, 2), op('M', 2, true, true, true, 2), op('A', 2, true, true, true, 2)])],
+    ];
+    for c in &corpus { plan_case(cx, c); }
+    for c in &[corpus[0].clone(), corpus[1].clone(), corpus[3].clone(), corpus[5].clone(), corpus[6].clone()] { planx_case(cx, c); }
+
+    let n = cx.budget(1500, 30000);
+    for _ in 0..n { let c = gen_struct_chain(cx); plan_case(cx, &c); }
+    let n = cx.budget(500, 10000);
+    for i in 0..n { let c = gen_exec_chain(cx, i % 2 == 0); planx_case(cx, &c); }
+
+    // builder programs: explain() and planned == reference
+    let o = pipe::CheckOpts { par_vs_seq: false, vs_reference: true };
+    let n = cx.budget(250, 5000);
+    for i in 0..n {
+        let opts = pipe::GenOpts { max_steps: 8, max_rows: 20, barriers: true, joins: i % 7 == 0, globals: true, nonlocal_batches: false };
+        let p = pipe::gen_prog(&mut cx.rng, &opts);
+        if matches!(pipe::reference(&p), pipe::RefOut::Panic) { continue; }
+        explain_case(cx, &p);
+        let parts = 1 + cx.rng.below(5);
+        pipe::check_prog(cx, &p, &[pipe::Mode::Seq, pipe::Mode::Par(parts)], &o);
+    }
 }
